@@ -88,7 +88,11 @@ Menu == <<
   Ext("Query", Obj("Query", <<>>, <<Fld("bad", Named("Int"), <<Arg("o", Named("Query"))>>, "")>>)),              \* 54 an argument typed by an object type (the type being built)
   Ext("String", Obj("String", <<>>, <<Fld("zz", Named("Int"), <<>>, "")>>)),                                      \* 55 an extension of a specified scalar, of the wrong kind
   Def(Enu("Mutation", <<[name |-> "M1", dep |-> ""]>>)),                                                          \* 56 a NON-object type with a conventional root name: not a root (valid)
-  Ext("Query", Obj("Query", <<>>, <<Fld("mm", Named("Mutation"), <<>>, "")>>))                                    \* 57 ... referred to by a field (needs 56)
+  Ext("Query", Obj("Query", <<>>, <<Fld("mm", Named("Mutation"), <<>>, "")>>)),                                   \* 57 ... referred to by a field (needs 56)
+  \* 58-60: a member name written twice INSIDE one definition (invalid whatever else the document holds, extensions included)
+  Def(Obj("DupF", <<>>, <<Fld("a", Named("Int"), <<>>, ""), Fld("b", Named("Int"), <<>>, ""), Fld("a", Named("String"), <<>>, "")>>)),   \* 58
+  Def(Inp("DupIn", <<Arg("x", Named("Int")), Arg("x", Named("String"))>>)),                                        \* 59
+  Def(Ifc("DupI", <<Fld("id", Named("ID"), <<>>, ""), Fld("id", Named("ID"), <<>>, "")>>))                         \* 60
 >>
 CONSTANT MenuIdx        \* the menu items that may be picked (the whole menu, or a focus on a few items with a larger MaxItems)
 CONSTANTS Slice, NSlices \* only the documents with (sum of the picked indices) % NSlices = Slice are printed for replay (all are model-checked)
